@@ -45,8 +45,8 @@ func checkEqualityTables(r *Run, prog *Program, a *Anchors, pfx string) {
 		r.Fail("undecided", pfx+".kind-tables", "extract", prog.pos(a.EqTable.Pos()), p)
 	}
 	r.Floor(pfx+".kind-row", 20)
-	pe := paramSym(a.CoerceTab.Params[0])
-	rawKey := (&Sym{K: sLoad, A: &Sym{K: sFieldAddr, A: loadField(pe, "Value"), Str: "Raw"}}).Key()
+	litSym, kindSym := a.coerceLiteral()
+	rawKey := (&Sym{K: sLoad, A: &Sym{K: sFieldAddr, A: litSym, Str: "Raw"}}).Key()
 	checkedCoerce := map[*ssa.Function]bool{}
 	for k := 0; k < nKinds; k++ {
 		spec, scalar := coerceSpecFor(k)
@@ -103,8 +103,8 @@ func checkEqualityTables(r *Run, prog *Program, a *Anchors, pfx string) {
 			ps := NewPathSim(prog)
 			kk := k
 			ps.Seed = func(st *pstate) {
-				st.eqc[paramSym(a.CoerceTab.Params[1]).Key()] = kindConst(kk).Key()
-				assume(st, &Sym{K: sCmp, Op: token.EQL, A: loadField(pe, "Value"), B: nilSym()}, false)
+				st.eqc[kindSym.Key()] = kindConst(kk).Key()
+				assume(st, &Sym{K: sCmp, Op: token.EQL, A: litSym, B: nilSym()}, false)
 			}
 			ps.Inline = func(c *ssa.Function) bool { return prog.InModule(c) && !isCoercion(c) }
 			for _, sm := range ps.Run(a.CoerceTab) {
